@@ -1427,6 +1427,12 @@ impl Fsm {
     /// * check if all state/transition references are correct (all states have a document-id)
     /// * check if all special scxml conditions are satisfied.
     fn valid(&self) -> bool {
+        if self.pseudo_root == 0 || self.states.is_empty() {
+            // e.g. an invoke with content that is no SCXML document at all
+            #[cfg(feature = "Trace")]
+            self.tracer.trace("No <scxml> root element");
+            return false;
+        }
         for state in &self.states {
             if state.doc_id == 0 {
                 #[cfg(feature = "Trace")]
